@@ -300,3 +300,231 @@ Proof.
 Qed.
 
 End WalkProofs.
+
+(* ================================================================== *)
+(** * constructors: +, extension, objectRemoveKey *)
+Section Constructors.
+Context {B V : Type}.
+Variable ev : nat -> B -> res V.
+Variable add : V -> V -> res V.
+
+Lemma laminar_app : forall n (x y : list (layer B)), laminar n x -> laminar n (x ++ y).
+Proof.
+  induction n; intros; simpl in *; auto.
+  destruct x; [contradiction|]. simpl. destruct H. split; auto.
+Qed.
+
+Lemma wf_r_app : forall (x y : list (layer B)), wf_r x -> wf_r y -> wf_r (x ++ y).
+Proof.
+  induction x as [|l x IH]; intros; simpl in *; auto.
+  destruct l; simpl in *.
+  - destruct H. split; auto.
+  - destruct H as (? & ? & ?). repeat split; auto. apply laminar_app; auto.
+Qed.
+
+Lemma laminar_all : forall (rl : list (layer B)), wf_r rl -> laminar (length rl) rl.
+Proof.
+  induction rl as [|l rl IH]; intros; simpl; auto.
+  split; [|apply IH; eapply wf_r_tail; eauto].
+  destruct l; auto. apply wf_r_omit in H. apply laminar_len in H. lia.
+Qed.
+
+(** (a + b) is well formed *)
+Theorem extend_from_wf : forall (a b : list (layer B)),
+  wf a -> wf b -> fits (extend_from a b) -> wf (extend_from a b).
+Proof.
+  unfold wf, extend_from. intros a b [Ha _] [Hb _] Hf. split; auto.
+  rewrite rev_app_distr. apply wf_r_app; auto.
+Qed.
+
+(** a { fields } is well formed when the field names are distinct *)
+Theorem push_layer_wf : forall (a : list (layer B)) fs ls asr,
+  wf a -> NoDup (map fst fs) -> fits (push_layer a (LObj fs ls asr)) -> wf (push_layer a (LObj fs ls asr)).
+Proof.
+  unfold wf, push_layer. intros a fs ls asr [Ha _] Hn Hf. split; auto.
+  rewrite rev_app_distr. simpl. auto.
+Qed.
+
+(** std.objectRemoveKey(o, k) is well formed *)
+Theorem remove_key_wf : forall (o : list (layer B)) k,
+  wf o -> fits (remove_key o k) -> wf (remove_key o k).
+Proof.
+  unfold wf, remove_key. intros o k [Ho _] Hf. split; auto.
+  rewrite rev_app_distr. simpl. repeat split; auto.
+  - constructor; [simpl; tauto|constructor].
+  - rewrite Nat2N.id. rewrite <- (rev_length o). apply laminar_all; auto.
+Qed.
+
+Theorem extend_assoc : forall (a b c : list (layer B)),
+  extend_from (extend_from a b) c = extend_from a (extend_from b c).
+Proof. intros. unfold extend_from. symmetry. apply app_assoc. Qed.
+
+(** hidden layers are skipped wholesale *)
+Lemma lookup_r_skip : forall (rl : list (layer B)) key s,
+  lookup_r ev add rl key s = lookup_r ev add (skipn s rl) key 0.
+Proof.
+  induction rl as [|l rl IH]; intros; destruct s; try reflexivity. simpl skipn. cbn [lookup_r]. apply IH.
+Qed.
+Lemma has_r_skip : forall (rl : list (layer B)) key s, has_r rl key s = has_r (skipn s rl) key 0.
+Proof.
+  induction rl as [|l rl IH]; intros; destruct s; try reflexivity. simpl skipn. cbn [has_r]. apply IH.
+Qed.
+Lemma vis_r_skip : forall (rl : list (layer B)) key s, vis_r rl key s = vis_r (skipn s rl) key 0.
+Proof.
+  induction rl as [|l rl IH]; intros; destruct s; try reflexivity. simpl skipn. cbn [vis_r]. apply IH.
+Qed.
+
+Lemma skipn_rev_app : forall (o sup : list (layer B)), skipn (length o) (rev o ++ rev sup) = rev sup.
+Proof.
+  intros. rewrite <- (rev_length o). rewrite skipn_app. rewrite skipn_all, Nat.sub_diag. reflexivity.
+Qed.
+
+Lemma mem_single : forall k, mem k [k] = true.
+Proof. intros. unfold mem. simpl. rewrite N.eqb_refl. reflexivity. Qed.
+Lemma mem_single_neq : forall f k, f <> k -> mem f [k] = false.
+Proof. intros. unfold mem. simpl. apply N.eqb_neq in H. rewrite H. reflexivity. Qed.
+
+Lemma upto_all : forall (cores : list (layer B)), cores_upto cores (length cores) = rev cores.
+Proof. intros. unfold cores_upto. rewrite firstn_all. reflexivity. Qed.
+
+Lemma rev_remove_key : forall (sup o : list (layer B)) k,
+  rev (sup ++ remove_key o k) = LOmit [k] (N.of_nat (length o)) :: rev o ++ rev sup.
+Proof. intros. unfold remove_key. rewrite !rev_app_distr. reflexivity. Qed.
+
+(** sup + objectRemoveKey(o, k): k reads (and is visible) exactly as in sup alone *)
+Theorem remove_key_hides : forall (sup o : list (layer B)) k,
+  let r := sup ++ remove_key o k in
+  lookup_spec ev add r k (length r) = lookup_spec ev add sup k (length sup)
+  /\ has_spec r k (length r) = has_spec sup k (length sup)
+  /\ vis_spec r k (length r) = vis_spec sup k (length sup).
+Proof.
+  intros. unfold lookup_spec, has_spec, vis_spec, r. rewrite !upto_all, rev_remove_key.
+  cbn [lookup_r has_r vis_r]. rewrite mem_single, Nat2N.id.
+  rewrite lookup_r_skip, has_r_skip, vis_r_skip, skipn_rev_app. auto.
+Qed.
+
+(** ... also seen through any layers stacked on top that do not themselves remove k *)
+Definition no_omit_of (k : name) (l : layer B) : Prop :=
+  match l with LOmit om _ => mem k om = false | LObj _ _ _ => True end.
+
+Lemma above_congr : forall (X X' : list (layer B)) k,
+  length X = length X' ->
+  lookup_r ev add X k 0 = lookup_r ev add X' k 0 -> has_r X k 0 = has_r X' k 0 -> vis_r X k 0 = vis_r X' k 0 ->
+  forall ra, Forall (no_omit_of k) ra ->
+    lookup_r ev add (ra ++ X) k 0 = lookup_r ev add (ra ++ X') k 0
+    /\ has_r (ra ++ X) k 0 = has_r (ra ++ X') k 0
+    /\ vis_r (ra ++ X) k 0 = vis_r (ra ++ X') k 0.
+Proof.
+  intros X X' k Hlen Hl Hh Hv. induction ra as [|l ra IH]; intros HF; [auto|].
+  inversion HF; subst. destruct (IH H2) as (IHl & IHh & IHv).
+  simpl app. cbn [lookup_r has_r vis_r]. destruct l as [fs ls asr|om p].
+  - rewrite IHl, IHh, IHv. rewrite !app_length, Hlen. auto.
+  - simpl in H1. rewrite H1. auto.
+Qed.
+
+Definition blank : layer B := LObj [] [] [].
+
+Lemma repeat_snoc : forall {A} (x : A) n, repeat x n ++ [x] = x :: repeat x n.
+Proof. induction n; simpl; congruence. Qed.
+Lemma rev_repeat : forall {A} (x : A) n, rev (repeat x n) = repeat x n.
+Proof. induction n; simpl; auto. rewrite IHn. apply repeat_snoc. Qed.
+
+Lemma lookup_blanks : forall n (rs : list (layer B)) k,
+  lookup_r ev add (repeat blank n ++ rs) k 0 = lookup_r ev add rs k 0
+  /\ has_r (repeat blank n ++ rs) k 0 = has_r rs k 0
+  /\ vis_r (repeat blank n ++ rs) k 0 = vis_r rs k 0.
+Proof. induction n; intros; simpl repeat; simpl app; cbn [lookup_r has_r vis_r blank assoc is_some]; auto. Qed.
+
+(** the object produced by objectRemoveKey, under `sup` and with any `above` stacked on it,
+    answers every lookup of k that starts above it as if its layers were empty *)
+Theorem remove_key_invisible_above : forall (sup o above : list (layer B)) k,
+  Forall (no_omit_of k) above ->
+  let r := sup ++ remove_key o k ++ above in
+  let r' := sup ++ repeat blank (S (length o)) ++ above in
+  lookup_spec ev add r k (length r) = lookup_spec ev add r' k (length r')
+  /\ has_spec r k (length r) = has_spec r' k (length r')
+  /\ vis_spec r k (length r) = vis_spec r' k (length r').
+Proof.
+  intros sup o above k HF r r'. unfold lookup_spec, has_spec, vis_spec, r, r'. rewrite !upto_all.
+  rewrite !app_assoc. rewrite (rev_app_distr _ above), (rev_app_distr _ above).
+  apply above_congr.
+  - rewrite !rev_length, !app_length. unfold remove_key. rewrite app_length, repeat_length. simpl. lia.
+  - rewrite rev_remove_key. cbn [lookup_r]. rewrite mem_single, Nat2N.id, lookup_r_skip, skipn_rev_app.
+    rewrite rev_app_distr, rev_repeat. symmetry. apply lookup_blanks.
+  - rewrite rev_remove_key. cbn [has_r]. rewrite mem_single, Nat2N.id, has_r_skip, skipn_rev_app.
+    rewrite rev_app_distr, rev_repeat. symmetry. apply lookup_blanks.
+  - rewrite rev_remove_key. cbn [vis_r]. rewrite mem_single, Nat2N.id, vis_r_skip, skipn_rev_app.
+    rewrite rev_app_distr, rev_repeat. symmetry. apply lookup_blanks.
+  - apply Forall_rev. auto.
+Qed.
+
+(** every other name is untouched *)
+Theorem remove_key_others : forall (o : list (layer B)) k f, f <> k ->
+  let r := remove_key o k in
+  lookup_spec ev add r f (length r) = lookup_spec ev add o f (length o)
+  /\ has_spec r f (length r) = has_spec o f (length o)
+  /\ vis_spec r f (length r) = vis_spec o f (length o).
+Proof.
+  intros o k f Hne r. unfold lookup_spec, has_spec, vis_spec, r. rewrite !upto_all.
+  unfold remove_key. rewrite rev_app_distr. simpl app. cbn [lookup_r has_r vis_r].
+  rewrite mem_single_neq by auto. auto.
+Qed.
+
+(** a later layer can re-introduce k; a `+:` there finds nothing to add to *)
+Theorem remove_key_reintroduce : forall (o : list (layer B)) k m ls asr,
+  let r := push_layer (remove_key o k) (LObj [(k, m)] ls asr) in
+  lookup_spec ev add r k (length r) = bind (ev (S (length o)) (m_body m)) (fun b => Ok (Some b))
+  /\ has_spec r k (length r) = true.
+Proof.
+  intros o k m ls asr r. unfold lookup_spec, has_spec, r. rewrite !upto_all.
+  unfold push_layer, remove_key. rewrite !rev_app_distr. simpl app.
+  cbn [lookup_r has_r assoc]. rewrite N.eqb_refl. cbn [is_some]. split; [|reflexivity].
+  cbn [has_r]. rewrite mem_single, Nat2N.id. rewrite has_r_skip.
+  rewrite <- (rev_length o), skipn_all. cbn [has_r]. rewrite andb_false_r.
+  rewrite rev_length. simpl length. rewrite rev_length. reflexivity.
+Qed.
+
+End Constructors.
+
+(* ================================================================== *)
+(** * the boolean well-formedness check is sound *)
+Section WfBool.
+Context {B : Type}.
+
+Lemma mem_In : forall k l, mem k l = true <-> In k l.
+Proof.
+  intros. unfold mem. rewrite existsb_exists. split.
+  - intros (x & Hx & E). apply N.eqb_eq in E. subst. auto.
+  - intros. exists k. split; auto. apply N.eqb_refl.
+Qed.
+
+Lemma nodupb_NoDup : forall l, nodupb l = true -> NoDup l.
+Proof.
+  induction l; simpl; intros; constructor.
+  - apply andb_prop in H. destruct H. intro Hin. apply mem_In in Hin. rewrite Hin in H. discriminate.
+  - apply IHl. apply andb_prop in H. tauto.
+Qed.
+
+Lemma laminarb_laminar : forall n (rl : list (layer B)), laminarb n rl = true -> laminar n rl.
+Proof.
+  induction n; intros; simpl in *; auto.
+  destruct rl; [discriminate|]. apply andb_prop in H. destruct H. split; auto.
+  destruct l; auto. apply Nat.leb_le. auto.
+Qed.
+
+Lemma wf_rb_wf_r : forall (rl : list (layer B)), wf_rb rl = true -> wf_r rl.
+Proof.
+  induction rl as [|l rl IH]; intros; simpl in *; auto.
+  destruct l.
+  - apply andb_prop in H. destruct H. split; auto. apply nodupb_NoDup; auto.
+  - apply andb_prop in H. destruct H as [H H2]. apply andb_prop in H. destruct H.
+    repeat split; auto. apply nodupb_NoDup; auto. apply laminarb_laminar; auto.
+Qed.
+
+Theorem wfb_wf : forall (cores : list (layer B)), wfb cores = true -> wf cores.
+Proof.
+  unfold wfb, wf, fits. intros. apply andb_prop in H. destruct H. split.
+  - apply wf_rb_wf_r; auto.
+  - apply N.ltb_lt; auto.
+Qed.
+End WfBool.
